@@ -121,11 +121,18 @@ def order_bounded(sess: Session):
     on the indexes schema.sql declares.  Observed here on a real database: one document whose repeated children are not
     in sorted order and contain repeats."""
     from bounded import order_doc
-    bad = order_doc.check()
+    try:
+        bad = order_doc.check()
+    except Exception as exc:   # noqa: BLE001 - add() or a query raises on this valid document
+        import traceback
+        bad = [('add() / query of the document', f'{type(exc).__name__}: {exc}', 'no exception; ' +
+                traceback.format_exc().strip().splitlines()[-3].strip())]
     sess.add_bounded('wn.add + Form.tags / pronunciations, Sense.examples / counts, Synset.examples / definition, '
                      'Word.forms / senses (document order, repeats kept)', 'one document: 3 forms with 0-5 tags and 0-4 '
                      'pronunciations, 3 senses with 0-4 examples and counts, 3 synsets with 0-4 examples, 0-2 definitions; '
-                     'none of the lists sorted, each with a repeat', 1, 'real add() to a real database, public API', not bad)
+                     'none of the lists sorted, each with a repeat; a synset without partOfSpeech, pronunciations with '
+                     'phonemic=false / notation / audio, empty metadata values, two sense-synset relations differing only in '
+                     'dc:type', 1, 'real add() to a real database, public API', not bad)
     if bad:
         sess.violation_direct('wn.add/query:document-order', f'{bad[0][0]} reports {bad[0][1]}, the document has '
                               f'{bad[0][2]}', {'witness': [list(b) for b in bad[:4]]}, True,
